@@ -10,6 +10,7 @@ func registerAll() {
 		registerCurves()
 		registerSharing()
 		registerMatrices()
+		registerPolynomials()
 		registerNT()
 		registerPaillier()
 		registerElGamal()
@@ -18,5 +19,7 @@ func registerAll() {
 		registerKeyAgreement()
 		registerSignatures()
 		registerShards()
+		registerProofs()
+		registerMessages()
 	})
 }
